@@ -41,3 +41,26 @@ def run_lemma(fam, lem, timeout_ms=30000):
         res['ms'] = int((time.time() - t0) * 1000)
         out.append(res)
     return out
+
+
+class SpecEnv:
+    """Evaluate contract-language texts over fresh symbolic state (no code), for lemmas."""
+
+    def __init__(self, world, params):
+        from .engine import Ctx
+        from .verify import setup_path
+        from .world import Contract
+        c = Contract('<lemma>', params=params)
+        self.ctx = Ctx(world)
+        self.p, self.it = setup_path(world, c, None, self.ctx, [])
+        self.it.spec = True
+
+    def t(self, text):
+        return self.it.truth(self.it.eval_text(text))
+
+    def bind(self, name, value):
+        self.it.env[name] = value
+
+    @property
+    def assumptions(self):
+        return list(self.p.pc)
